@@ -185,6 +185,16 @@ class Check:
         self.extra_inconclusive = {}
         self.t0 = time.time()
         self.outdir = os.path.join(WITNESS, prop)
+        # witnesses of the previous run of this check are dropped (a stale sanitizer log
+        # must never be attributed to this run)
+        if os.path.isdir(self.outdir):
+            for fn in os.listdir(self.outdir):
+                fp = os.path.join(self.outdir, fn)
+                if os.path.isfile(fp):
+                    try:
+                        os.unlink(fp)
+                    except OSError:
+                        pass
         os.makedirs(self.outdir, exist_ok=True)
         os.makedirs(EVIDENCE, exist_ok=True)
 
